@@ -5,6 +5,7 @@ CONSTANTS
   EpochFmt = TRUE
   KeepLB = TRUE
   BestTrain = TRUE
+  ModelKind = "data_parallel"
   Params <- FsP0
   MaxE = 4
   MaxCrash = 2
